@@ -140,16 +140,16 @@ Proof.
   cbn [fault set_opc with_pc set_pc]. rewrite Hf1, Hf. reflexivity.
 Qed.
 
-(* ---- JSR @ERn (n <> 7: the reference reads the target before the push, the code after it) ---- *)
+(* ---- JSR @ERn (every n: the target register is read after the push, in the reference as in the code) ---- *)
 Theorem step_jsr_ern_proof s w w1 w2 w3 w4 r n s' :
   cpu_ok s -> bus_bytes_ok s -> fault s = false -> pc s mod 2 = 0 -> 0 <= pc s -> pc s + 2 < 4294967296 ->
   mem_read SW s (pc s) = Some w ->
-  decode_ref w w1 w2 w3 w4 = Some (IJsr (JReg r), 2) -> r <> 7 ->
+  decode_ref w w1 w2 w3 w4 = Some (IJsr (JReg r), 2) ->
   sem_ref (IJsr (JReg r)) 2 s = Some s' ->
   (i <- cs KI 2 ;; k <- csa KK 2 ((reg32 s 7 - 4) mod A24) ;; ret (u8add i k)) (set_opc (pc s) s') = Ok n (set_opc (pc s) s') ->
   step s = Ok n (set_opc (pc s) s').
 Proof.
-  intros [Hr Hc] Hb Hf Hev H0 H1 Hw Hd Hr7 Hsem Hcs.
+  intros [Hr Hc] Hb Hf Hev H0 H1 Hw Hd Hsem Hcs.
   pose proof (word_range s _ _ Hb Hw) as Rw.
   destruct (two_byte_dispatch w w1 w2 w3 w4 _ Rw Hd) as (Hp & Hs & Hag & Hx & _).
   rewrite (step_via_handler s w) by assumption.
@@ -163,7 +163,6 @@ Proof.
   destruct (push32 s (pc s + 2)) as [s1|] eqn:E; cbn [ISA.obind] in Hsem; [|discriminate Hsem].
   injection Hsem as <-. cbn [option_map then_charge]. rewrite <- Er.
   change (reg32 (set_pc (pc s + 2) (set_opc (pc s) s1)) r) with (reg32 s1 r).
-  rewrite (push32_other_regs s _ s1 r E) by lia.
   rewrite with_pc_pf. rewrite Hcs. unfold finish.
   pose proof (push32_fault _ _ _ E) as Hf1.
   cbn [fault set_opc with_pc set_pc]. rewrite Hf1, Hf. reflexivity.
